@@ -17,6 +17,8 @@ def validate_input(x, sensors=None):
     """
     if not isinstance(x, np.ndarray):
         raise ValueError("x must be a numpy array")
+    if np.ndim(x) not in (1, 2):
+        raise ValueError("x must be one- or two-dimensional")
 
     if sensors is not None:
         n_features = len(x) if np.ndim(x) == 1 else x.shape[1]
